@@ -141,3 +141,38 @@ pub(crate) fn p_callback_panic<const N: usize>() {
     no_double_drop();
     nothing_leaked();
 }
+
+/// C11 (bounded stand-in for the "leaves the buffer unchanged" clause, which needs the state AFTER a panic):
+/// a call that panics for a documented reason must leave the buffer exactly as it was
+pub(crate) fn p_documented_panic<const N: usize>() {
+    scenario_begin();
+    let mut b = any_tokbuf::<N>();
+    let old = ids_of(&b);
+    let (st, sz) = (b.start, b.size);
+    let which = nd::usize_in(0, 5);
+    let (lo, hi) = if which <= 2 { (any_bound(), any_bound()) } else { (Bound::Unbounded, Bound::Unbounded) };
+    let i = if which >= 3 { nd::any_usize() } else { 0 };
+    let j = if which == 5 { nd::any_usize() } else { 0 };
+    let len = old.len;
+    let must_panic = match which {
+        0 | 1 | 2 => bounds_to_range(lo, hi, len).is_none(),
+        3 | 4 => i >= len,
+        _ => i >= len || j >= len,
+    };
+    let r = catch_unwind(AssertUnwindSafe(|| {
+        match which {
+            0 => { let it = b.range((lo, hi)); core::mem::forget(it); }
+            1 => { let it = b.range_mut((lo, hi)); core::mem::forget(it); }
+            2 => { let d = b.drain((lo, hi)); drop(d); }
+            3 => { let _ = &b[i]; }
+            4 => { let _ = &mut b[i]; }
+            _ => b.swap(i, j),
+        }
+    }));
+    if must_panic != r.is_err() { nd::record_failure("[C11] the call panicked although the documented condition does not hold, or returned although it does"); }
+    if r.is_err() {
+        if !(b.start == st && b.size == sz && ids_of(&b).eq(&old)) { nd::record_failure("[C11] a call that panicked for a documented reason changed the buffer"); }
+    }
+    drop(b);
+    no_double_drop();
+}
